@@ -29,6 +29,8 @@ BOUNDS = {
     "sanitize_uint_claim": "see sanitize",
     "semver_from_zerv": "valid schemas from 11 core (incl. literals that only sanitise to digits, signed or padded numbers, custom variables) x 5 extra-core x 3 build lists mixing var / str / uint components, incl. values that split into several identifiers, sanitise to nothing, or overflow u32) x 324 variable assignments; SemVer::from(Zerv).to_string() against an oracle written from the statement",
     "pep440_from_zerv": "the same 119 schemas x 324 assignments; PEP440::from(Zerv).to_string() against an oracle written from the statement",
+    "flow_rules": "3 base tags (final, pre-release, pre-release+post) x 11 branch names (default GitFlow rules; numeric segments, empty segments, non-ASCII) x distance {0,3} x dirty x post-mode {default, tag, commit} x label/number flags x hash lengths {1,5,10}: 1716 runs of the real flow pipeline (source none, output zerv) compared with the statement's rules written as arithmetic; branch hash: digit count, determinism",
+    "pep440_spellings": "10 versions in 4-12 spellings each (case, separators, alternative labels, leading zeros, v prefix, trailing zero release numbers, explicit epoch 0, implicit numbers): every spelling accepted, all pairs within a group compare Equal and ==, representatives of different groups differ",
     "bump_sequence": "3 start versions x all 28 pairs of levels (7 numeric levels + pre-release label) x 9 override/bump combinations x {no, bump, override} core index operation = 2268 argument sets: apply_component_processing against the real per-level handlers applied by hand in the documented order",
     "ron_roundtrip": "38 schemas (16 fixed presets, custom schemas with empty / one-level / reversed / full precedence orders, 14 schemas with awkward literal texts) x 18 variable sets (quotes, backslashes, newlines, tabs, Unicode, RON-looking text; custom JSON objects, arrays, null, strings) = 684 objects: Display -> from_str equals the object, re-emission byte-identical, SemVer / PEP 440 rendering equal through the pipe",
     "semver_roundtrip": "4 cores x 308 pre-release lists (<=2 identifiers from 17, incl. leading-zero alphanumerics, hyphens, numerics around u64::MAX) x 12 build lists x {'', 'v'}: parse, print, compare with the input; 3 cores above u64::MAX; 22 strings outside the grammar must be rejected",
